@@ -529,8 +529,9 @@ std::string NLModel::WriteNL(
 
 double NLModel::ComputeObjValue(const double *x) const {
   double result {obj_c0_};
-  for (auto i=NumCols(); i--; )
-    result += obj_c_[i] * x[i];
+  if (obj_c_)                 // the linear part is optional
+    for (auto i=NumCols(); i--; )
+      result += obj_c_[i] * x[i];
   if (Q_.num_nz_) {
     auto pos_end = Q_.num_nz_;
     for (auto i=NumCols(); i--; ) {
